@@ -122,11 +122,16 @@ TARGETS = {
         dict(name="Kls.m_static", maker="lambda: M.Kls.m_static", sig="M.Kls.__dict__['m_static'].__func__", selfargs="[]"),
         dict(name="nested rec_inner", maker="lambda: M._NESTED['rec']", sig="M._NESTED['rec']", selfargs="[]"),
         dict(name="Kls.prop", maker="lambda: (lambda *a: OBJ.prop)", sig="M.Kls.__dict__['prop'].fget", selfargs="[OBJ]", noargs=True),
+        # the same functions of the byte-identical twin module (equal code objects, different functions)
+        dict(name="twin f_mod", maker="lambda: MT.f_mod", sig="MT.f_mod", selfargs="[]"),
+        dict(name="twin Kls.m_inst", maker="lambda: TOBJ.m_inst", sig="MT.Kls.m_inst", selfargs="[TOBJ]"),
+        dict(name="twin Kls.m_static", maker="lambda: MT.Kls.m_static", sig="MT.Kls.__dict__['m_static'].__func__", selfargs="[]"),
     ],
     "G": [
         dict(name="g_mod", maker="lambda: M.g_mod", sig="M.g_mod", selfargs="[]"),
         dict(name="Kls.g_meth", maker="lambda: OBJ.g_meth", sig="M.Kls.g_meth", selfargs="[OBJ]"),
         dict(name="nested rec_gen", maker="lambda: M._NESTED['gen']", sig="M._NESTED['gen']", selfargs="[]"),
+        dict(name="twin g_mod", maker="lambda: MT.g_mod", sig="MT.g_mod", selfargs="[]"),
     ],
     "C": [
         dict(name="c_mod", maker="lambda: M.c_mod", sig="M.c_mod", selfargs="[]"),
